@@ -1,7 +1,8 @@
 """C20 -- tnetstring serialisation round-trips and the streaming parser agrees with it.
 
 M: spec/Tnet.tla defines Dump and Parse over a value ADT (arbitrary-precision integers as digit strings, floats as their
-   text, byte strings, UTF-8 text, booleans, null, lists, string-keyed dictionaries); TLC checks Parse(Dump(v)) = (v, <<>>)
+   text, byte strings, text as code points written in the encoding both sides are given (UTF-8, Latin-1), booleans, null, lists,
+   string-keyed dictionaries); TLC checks Parse(Dump(v)) = (v, <<>>)
    and Parse(Dump(v) ++ tail) = (v, tail) for every value of the bounded domain (payloads that look like length
    prefixes, colons, type codes; multi-byte text; big / negative integers; containers nested to depth 2-3) and tails.
 R: every emitted (value, octets) vector is replayed: tnetstrings.dump(value) = octets; tnetstrings.parse(octets [+ tail])
@@ -11,6 +12,9 @@ R: every emitted (value, octets) vector is replayed: tnetstrings.dump(value) = o
    The socket-level reader built on it (tnet_from, scripted receive function) gets streams of two messages -- back to back, or
    separated and followed by a newline it is told to ignore, payloads containing newlines included -- whole, bytewise and at
    every two-way split: it must yield exactly the two payloads.
+M+R: spec/TnetReader.tla is that reader as a state machine (chunks arrive, receives time out); TLC checks ChunkingIndependent on
+   every schedule of <= 3 chunks and <= 2 timeouts over streams of two messages and emits each complete schedule with the yields
+   it must produce (timeouts included); each is replayed on the real tnet_from polling a scripted receive function.
 """
 import json
 import os
@@ -34,7 +38,7 @@ def to_py(v):
     if t == "bytes":
         return bytes(bytearray(v["b"]))
     if t == "text":
-        return bytes(bytearray(v["u"])).decode("utf-8")
+        return "".join(chr(c) for c in v["cp"])
     if t == "list":
         return [to_py(x) for x in v["xs"]]
     return {bytes(bytearray(k)).decode("ascii"): to_py(x) for k, x in v["kv"]}
@@ -80,13 +84,15 @@ def _replay(job):
     out = []
     want = bytes(bytearray(v["b"]))
     pv = to_py(v["v"])
+    enc = v.get("enc", "utf-8")
+    kw = {} if enc == "utf-8" and len(want) % 2 else {"encoding": enc}        # (the default encoding: given and not given)
     try:
-        got = tnetstrings.dump(pv)
+        got = tnetstrings.dump(pv, **kw)
         if got != want:
-            out.append("dump: %r, spec says %r" % (got, want))
+            out.append("dump(%s): %r, spec says %r" % (kw, got, want))
         for tl in tails:
             tl = bytes(bytearray(tl))
-            val, rem = tnetstrings.parse(want + tl)
+            val, rem = tnetstrings.parse(want + tl, **kw)
             if not same_typed(val, pv):
                 out.append("parse(+%r): value %r (%s) != %r" % (tl, val, type(val).__name__, pv))
             if rem != tl:
@@ -94,7 +100,7 @@ def _replay(job):
     except Exception as exc:
         out.append("exception %r" % exc)
     nstream = 0
-    if v["v"]["t"] in ("bytes", "text", "int", "null"):
+    if v["v"]["t"] in ("bytes", "text", "int", "null") and enc == "utf-8":
         L = len(want)
         chunkings = [[want], [want[i:i + 1] for i in range(L)]] + [[want[:k], want[k:]] for k in range(1, L)]
         for tl in tails:
@@ -144,6 +150,41 @@ def _reader(job):
     return out, n
 
 
+def _sched(j):
+    """one schedule of chunks and receive timeouts (spec/TnetReader.tla) on the real tnet_from, polling (timeout=0)"""
+    import cpppo  # noqa
+    from cpppo.server import tnet, network
+    stream = bytes(bytearray(j["b"]))
+    script, at = [], 0
+    for kind, n in j["h"]:
+        if kind == "recv":
+            script.append(stream[at:at + n])
+            at += n
+        else:
+            script.append(None)
+    script.append(b"")
+
+    def recv(conn, maxlen=1024, timeout=None, closeprob=None):
+        return script.pop(0) if script else b""
+    want = [("timeout", None) if o["y"] == "timeout" else ("msg", to_py(o["v"])) for o in j["out"]]
+    saved = network.recv
+    network.recv = recv
+    got, exc = [], ""
+    try:
+        for m in tnet.tnet_from(None, ("reader", 2), timeout=0, ignore=bytes(bytearray(j["ignore"])) or None):
+            got.append(m)
+            if len(got) > len(want) + 2:
+                break
+    except Exception as e:
+        exc = type(e).__name__
+    finally:
+        network.recv = saved
+    # a null message and a timeout both yield None: told apart by position only
+    ok = not exc and len(got) == len(want) and all((g is None) if k == "timeout" else same_typed(g, w) for g, (k, w) in zip(got, want))
+    return "" if ok else "tnet_from(timeout=0, ignore=%r) on %r in schedule %s yielded %r %s, the specification says %r" % (
+        bytes(bytearray(j["ignore"])), stream, j["h"], got, exc, want)
+
+
 def main(ctx):
     ev = ctx.ev
     wd = core.workdir()
@@ -156,7 +197,7 @@ def main(ctx):
     if not vecs or not tails:
         ctx.machinery.append("no tnet vectors emitted")
         return
-    ev.rule = ("vectors: every value of the bounded domain (25 atoms incl. payloads like '1:', ',', '12:a,', '0:~', multi-byte "
+    ev.rule = ("vectors: every value of the bounded domain in UTF-8 and, where it contains text that Latin-1 can write, in Latin-1 (27 atoms incl. payloads like '1:', ',', '12:a,', '0:~', multi-byte "
                "text, 20-digit and negative integers, floats; lists/dicts of <= 2 entries nested to depth 2-3) x 5 tails; "
                "streaming: whole / bytewise / every two-way split.  Non-trivial: container, or a payload containing a digit, "
                "colon or type code, or multi-byte text.")
@@ -165,15 +206,15 @@ def main(ctx):
     results = core.pmap(_replay, [(v, tails[0]) for v in vecs], chunksize=16)
     for v, (probs, ns) in zip(vecs, results):
         t = v["v"]["t"]
-        nt = t in ("list", "dict") or (t == "bytes" and any(c in (44, 58, 35, 93, 126) or 48 <= c <= 57 for c in v["v"]["b"])) or (t == "text" and any(c > 127 for c in v["v"]["u"]))
-        ev.case(key=json.dumps(v["b"]), nontrivial=nt)
+        nt = t in ("list", "dict") or (t == "bytes" and any(c in (44, 58, 35, 93, 126) or 48 <= c <= 57 for c in v["v"]["b"])) or (t == "text" and any(c > 127 for c in v["v"]["cp"])) or v["enc"] != "utf-8"
+        ev.case(key=(v["enc"], json.dumps(v["b"])), nontrivial=nt)
         ev.impl += ns
         for p in probs[:2]:
             ctx.violation("tnet_%s" % t, {"vector": v, "tails": tails[0], "problem": p}, what="tnetstring %s: %s" % (bytes(bytearray(v["b"])), p))
     # the socket-level reader (tnet_from): pairs of streamable messages, with and without an ignored separator
     import random
     rng = random.Random(ctx.seed)
-    atoms = [v for v in vecs if v["v"]["t"] in ("bytes", "text", "int", "null")]
+    atoms = [v for v in vecs if v["v"]["t"] in ("bytes", "text", "int", "null") and v["enc"] == "utf-8"]
     pairs = [(a, b) for a in atoms for b in atoms]
     if ctx.quick:
         nl = [p for p in pairs if any(10 in x["b"][2:] for x in p)]
@@ -187,6 +228,21 @@ def main(ctx):
         for q in probs[:1]:
             ctx.violation("tnet_reader", {"reader": True, "messages": [p[0]["b"], p[1]["b"]], "sep": list(sep), "ignore": list(ign or b""), "problem": q}, what=q)
     ev.extra["reader_streams"] = len(rjobs)
+    # the reader as a state machine (TnetReader.tla): every schedule of <= 3 chunks and <= 1 (quick) / 2 receive timeouts
+    cfg3 = os.path.join(wd, "reader.cfg")
+    tlc.write_cfg(cfg3, ["SPECIFICATION Spec", "INVARIANT ChunkingIndependent", "INVARIANT Prefix", "CONSTRAINT Emit", "CHECK_DEADLOCK FALSE",
+                         "CONSTANTS", " Streams <- MCStreams", " MaxChunks = 3", " MaxTimeouts = %d" % (1 if ctx.quick else 2)])
+    r3 = ctx.tlc("reader", "MC_TnetReader", cfg3, spec_dir=wd, timeout=1700, workers=8)
+    scheds = [j for j in r3.json if j.get("k") == "sched"]
+    if not scheds:
+        ctx.machinery.append("no schedules from TnetReader")
+        return
+    for j, prob in zip(scheds, core.pmap(_sched, scheds, chunksize=128)):
+        ev.case(key=("sched", json.dumps(j["b"]), json.dumps(j["ignore"]), json.dumps(j["h"])), nontrivial=any(k == "timeout" for k, n in j["h"]) or len(j["h"]) > 1)
+        ev.impl += 1
+        if prob:
+            ctx.violation("tnet_reader_schedule", {"schedule": j, "problem": prob}, what=prob)
+    ev.extra["reader_schedules"] = len(scheds)
     ev.sample({"value": vecs[len(vecs) // 2]["v"], "octets": bytes(bytearray(vecs[len(vecs) // 2]["b"])).decode("latin-1")})
     ev.sample({"value": vecs[-1]["v"], "octets": bytes(bytearray(vecs[-1]["b"])).decode("latin-1")})
     ev.exhaustive = True
@@ -195,6 +251,10 @@ def main(ctx):
 
 def replay(ctx, path):
     rec = json.load(open(path))
+    if "schedule" in rec:
+        prob = _sched(rec["schedule"])
+        print("problem now:", prob or "none")
+        return 1 if prob else 0
     probs, _ = _replay((rec["vector"], rec["tails"]))
     print("vector:", bytes(bytearray(rec["vector"]["b"])))
     print("problems now:", probs or "none")
